@@ -10,8 +10,6 @@ namespace Splipy.MP.C18L
 
 variable {γ : Type} [Inhabited γ]
 
-instance : Inhabited PatchPlan := ⟨⟨[], []⟩⟩
-
 /-! ## the arrays of the first loop, patch by patch -/
 
 theorem generateAll_getElem? : ∀ (plans : List PatchPlan) (s k : ℕ) (p : PatchPlan), plans[k]? = some p →
@@ -109,13 +107,6 @@ theorem paired_run (plans : List PatchPlan) (P : List (NdArr γ))
     rw [hZ] at nat1 nat2
     simp only [Except.map, Except.ok.injEq] at nat1 nat2
     exact ⟨Z, rfl, nat1.symm, nat2.symm⟩
-
-/-- number / point at a flat position -/
-def numAt (N : Array (NdArr ℤ)) (k q : ℕ) : ℤ := (N.getD k default).data.getD q default
-def ptAt (P : List (NdArr γ)) (k q : ℕ) : γ := (P.toArray.getD k default).data.getD q default
-
-/-- `q` is a position of the patch at `k` -/
-def ValidPos (plans : List PatchPlan) (k q : ℕ) : Prop := ∃ p, plans[k]? = some p ∧ q < shapeSize p.shape
 
 theorem data_getD_map {α β : Type} [Inhabited α] [Inhabited β] (f : α → β) (hf : f default = default)
     (a : NdArr α) (q : ℕ) : (a.map f).data.getD q default = f (a.data.getD q default) := by
